@@ -132,6 +132,30 @@ class Check(object):
         loc, fn = self._site(node)
         self.error("unrecognised idiom at %s in %s: %s :: %s" % (loc, fn, short(node), reason), rule)
 
+    def borrow(self, fn, old_id, new_id, title, *a, **kw):
+        """Run a rule function of another property and re-label its results as ``new_id``."""
+        self.guard(fn, *a, **kw)
+        if old_id in self.rules:
+            r = self.rules.pop(old_id)
+            r["title"] = title
+            if new_id in self.rules:
+                for k in ("instances", "violations"):
+                    self.rules[new_id][k] += r[k]
+                if r["status"] != "ok":
+                    self.rules[new_id]["status"] = r["status"]
+            else:
+                self.rules[new_id] = r
+        for o in self.obligations:
+            if o["rule"] == old_id:
+                o["rule"] = new_id
+        for v in self.violations:
+            if v.rule == old_id:
+                v.rule = new_id
+        self.errors = [((new_id if rid == old_id else rid), reason) for rid, reason in self.errors]
+        for i in self.infos:
+            if i["rule"] == old_id:
+                i["rule"] = new_id
+
     def guard(self, fn, *a, **kw):
         """Run one rule function; anchor problems become analysis errors."""
         before = self.current
